@@ -189,3 +189,154 @@ Definition check_case (c : case) : bool :=
        | Ok (_, _, lo, hi) => Ok (lo, hi) | Err e => Err e end)
       expected
   end.
+
+(* ================================================================ several call sites (round 3)
+
+   Interpreter.get_contextual_state keeps, per call site (the StructuredValue object that
+   holds one `random_reference:` in the recipe), a pair [parent object, state]; the state of a
+   unique random_reference is one RandomReferenceContext with its own UpdatableRandomRange.
+   The definitions below put that table of call sites beside the row history, add the `scope`
+   argument of random_row_reference, and thread ONE stream of random.Random._randbelow results
+   through all consumers (randint of the plain references, the two draws of every generator
+   that starts), as the real run does.                                                         *)
+
+(* random_row_reference(name, scope, ...): glob = (scope == "prior-and-current-iterations") *)
+Definition ref_range_sc (h : rh) (name : string) (glob : bool)
+  : result (option string * string * Z * Z) :=
+  let '(nick, table, max_id) :=
+    match lookupS name (n2t h) with
+    | Some t => (Some name, t, Some (get0 name (nc h)))
+    | None => (None, name, lookupZ name (tc h))
+    end in
+  match max_id with
+  | None => Err (DGE "no-such-table")
+  | Some m =>
+    if m =? 0 then Err (DGE "no-such-table")
+    else
+      let min0 := if glob then 1
+                  else match nick with
+                       | Some n => get0 n (lnc h) + 1
+                       | None => get0 table (lc h) + 1
+                       end in
+      let min_id := if m <? min0 then 1 else min0 in
+      Ok (nick, table, min_id, m)
+  end.
+
+Definition with_oracle (u : urr) (o : list (Z * Z)) : urr :=
+  mkUrr (u_start u) (u_min u) (u_orig_max u) (u_cur_max u) (u_gen u) o.
+
+(* the (value, offset) draws a generator would take if it started now *)
+Fixpoint pair_up (l : list Z) : list (Z * Z) :=
+  match l with
+  | a :: b :: r => (a, b) :: pair_up r
+  | _ => []
+  end.
+
+(* one entry of instance_states: the parent object (0 = None, else a token of the object's
+   identity) and the state; s_old / s_cur are ghost fields: the numbers this site has drawn
+   under this parent before / since its range last moved to a disjoint window *)
+Record sitest := mkSite { s_parent : Z; s_ctx : uctx; s_old : list Z; s_cur : list Z }.
+Definition sites := list (Z * sitest).
+
+Fixpoint lookupN (k : Z) (l : sites) : option sitest :=
+  match l with
+  | [] => None
+  | (k', v) :: r => if k =? k' then Some v else lookupN k r
+  end.
+
+Fixpoint assignN (k : Z) (v : sitest) (l : sites) : sites :=
+  match l with
+  | [] => [(k, v)]
+  | (k', v') :: r => if k =? k' then (k, v) :: r else (k', v') :: assignN k v r
+  end.
+
+(* get_contextual_state: `if current_parent != parent_obj or value is None: value = make()` *)
+Definition site_get (ss : sites) (s p : Z) : sitest :=
+  match lookupN s ss with
+  | Some st => if s_parent st =? p then st else mkSite p None [] []
+  | None => mkSite p None [] []
+  end.
+
+Definition uref_moves (c : uctx) (lo : Z) : bool :=
+  match c with Some u => negb (lo =? u_start u) | None => false end.
+
+(* a plain reference: randint(lo, hi) = lo + _randbelow(hi - lo + 1) *)
+Definition mstep_ref (h : rh) (name : string) (glob : bool) (orc : list Z)
+  : result (string * Z) * list Z :=
+  match ref_range_sc h name glob with
+  | Err e => (Err e, orc)
+  | Ok (nick, table, lo, hi) =>
+    match orc with
+    | [] => (Err BadOracle, [])
+    | v :: rest =>
+      if (0 <=? v) && (v <=? hi - lo) then (resolve_draw h nick table (lo + v), rest)
+      else (Err BadOracle, rest)
+    end
+  end.
+
+(* a unique reference evaluated at call site s while the parent object is p *)
+Definition mstep_uref (h : rh) (ss : sites) (orc : list Z) (s p : Z) (name : string) (glob : bool)
+  : result (string * Z * sites * list Z) :=
+  let st := site_get ss s p in
+  do '(nick, table, lo, hi) <- ref_range_sc h name glob;
+  let po := pair_up orc in
+  do '(d, u1) <- unique_draw (option_map (fun u => with_oracle u po) (s_ctx st)) lo hi po;
+  do r <- resolve_draw h nick table d;
+  let st' := if uref_moves (s_ctx st) lo
+             then mkSite p (Some u1) (s_old st ++ s_cur st) [d]
+             else mkSite p (Some u1) (s_old st) (s_cur st ++ [d]) in
+  Ok (r, assignN s st' ss, skipn (2 * (length po - length (u_oracle u1))) orc).
+
+Inductive mop :=
+| MSave (table : string) (nick : option string) (id : Z)
+| MReset
+| MRef (name : string) (glob : bool)
+| MURef (site parent : Z) (name : string) (glob : bool).
+
+Record mstate := mkM { m_h : rh; m_sites : sites; m_orc : list Z }.
+
+(* one operation: its observable and the next state (None: the run stops, as a recipe does at
+   the first failing unique reference) *)
+Definition mstep (m : mstate) (op : mop) : hobs * option mstate :=
+  match op with
+  | MSave t n i => (ONone, Some (mkM (save_row (m_h m) t n i) (m_sites m) (m_orc m)))
+  | MReset => (ONone, Some (mkM (reset_locals (m_h m)) (m_sites m) (m_orc m)))
+  | MRef name glob =>
+    let '(res, orc') := mstep_ref (m_h m) name glob (m_orc m) in
+    (match res with Ok (t, i) => ORefd t i | Err e => OErr e end,
+     Some (mkM (m_h m) (m_sites m) orc'))
+  | MURef s p name glob =>
+    match mstep_uref (m_h m) (m_sites m) (m_orc m) s p name glob with
+    | Ok (t, i, ss', orc') => (ORefd t i, Some (mkM (m_h m) ss' orc'))
+    | Err e => (OErr e, None)
+    end
+  end.
+
+Fixpoint mrun (m : mstate) (ops : list mop) : list hobs * mstate :=
+  match ops with
+  | [] => ([], m)
+  | op :: r =>
+    match mstep m op with
+    | (o, Some m1) => let '(os, m2) := mrun m1 r in (o :: os, m2)
+    | (o, None) => ([o], m)
+    end
+  end.
+
+Definition is_oerr (o : hobs) : bool := match o with OErr _ => true | _ => false end.
+
+(* a trace: [ops] with their observables, then — when the run ended in an error — the
+   operations of the row that was being built: one of them must fail *)
+Inductive mcase :=
+| CMulti (counters : list (string * Z)) (names : list (string * string)) (orc : list Z)
+         (ops : list mop) (expected : list hobs) (tail : list mop) (fails : bool).
+
+Definition check_mcase (c : mcase) : bool :=
+  match c with
+  | CMulti counters names orc ops expected tail fails =>
+    let '(obs, m1) := mrun (mkM (rh_init counters names) [] orc) ops in
+    list_eqb hobs_eqb obs expected &&
+    match tail with
+    | [] => true
+    | _ => Bool.eqb (existsb is_oerr (fst (mrun m1 tail))) fails
+    end
+  end.
